@@ -18,6 +18,7 @@ import (
 	"filippo.io/edwards25519"
 	"filippo.io/edwards25519/field"
 	"filippo.io/edwards25519/vsched"
+	"filippo.io/edwards25519/vsync"
 	"verif/harness/alpha"
 	"verif/harness/checks"
 	"verif/harness/core"
@@ -39,6 +40,7 @@ func main() {
 func restoreCold() {
 	field.VerifRestore()
 	edwards25519.VerifRestore()
+	vsync.ResetRegistered()
 }
 
 func globalsHash() [32]byte {
@@ -271,6 +273,15 @@ type seqRef struct {
 // (the zero-deviation schedule), outputs additionally compared with the model.
 func sequentialRef(sc *scenario) *seqRef {
 	r := runSchedule(sc, nil, nil, false)
+	// Restore self-check: the zero-deviation schedule, run again after
+	// restoring the cold snapshot, must give identical observations. If not,
+	// this tree keeps state the generated snapshot cannot reach (e.g. captured
+	// by a closure): every later comparison would be meaningless, so stop as a
+	// machinery error instead of reporting a bogus violation.
+	r2 := runSchedule(sc, nil, nil, false)
+	if fmt.Sprint(r.outs, r.exec.Counts, r.exec.Choices, r.exec.Deadlock) != fmt.Sprint(r2.outs, r2.exec.Counts, r2.exec.Choices, r2.exec.Deadlock) {
+		core.InternalError("C18: the cold-state snapshot/restore is incomplete for this tree (scenario %q behaves differently on its second cold run); cannot explore schedules soundly", sc.name)
+	}
 	if r.exec.Deadlock || r.exec.Panicked() != nil || len(r.exec.Races) > 0 {
 		return &seqRef{outs: r.outs, counts: r.exec.Counts, globals: r.globals}
 	}
